@@ -695,7 +695,7 @@ package loadbalancer
 //@   modifies wrr.backends, elems(wrr.backends)
 
 //@ func (*WeightedRoundRobinStrategy).RemoveBackend
-//@   props C11 C12
+//@   props C11 C12 C05
 //@   requires unlocked(wrr.mutex) && wrrOK(wrr) && wrrDistinct(wrr)
 //@   ensures absent_unchanged: (forall i int :: 0 <= i && i < old(len(wrr.backends)) ==> old(wrr.backends[i]).backend != backend)
 //@             ==> len(wrr.backends) == old(len(wrr.backends)) && (forall i int :: {wrr.backends[i]} 0 <= i && i < len(wrr.backends) ==> wrr.backends[i] == old(wrr.backends[i]))
@@ -704,12 +704,26 @@ package loadbalancer
 //@   ensures others_kept: forall j int :: {old(wrr.backends[j])} 0 <= j && j < old(len(wrr.backends)) && old(wrr.backends[j]).backend != backend
 //@             ==> exists i int :: {wrr.backends[i]} 0 <= i && i < len(wrr.backends) && wrr.backends[i] == old(wrr.backends[j])
 //@   ensures nothing_new: forall i int :: {wrr.backends[i]} 0 <= i && i < len(wrr.backends) ==> exists j int :: {old(wrr.backends[j])} 0 <= j && j < old(len(wrr.backends)) && wrr.backends[i] == old(wrr.backends[j])
-//@   modifies wrr.backends, elems(wrr.backends)
+// C05: the smooth rotation's credits (currentWeight) are debts and claims between the members, scaled by the total
+// weight at the time they arose. When a member leaves the survivors must start level: otherwise a light backend
+// that was picked just before a heavy one left stays starved for about removed_weight/(2*remaining) requests,
+// far beyond any bound expressed in the weights that are still configured.
+//@   ensures removal_restarts_the_smooth_rotation@C05: (exists i int :: 0 <= i && i < old(len(wrr.backends)) && old(wrr.backends[i]).backend == backend)
+//@             ==> forall i int :: {wrr.backends[i]} 0 <= i && i < len(wrr.backends) ==> wrr.backends[i].currentWeight == 0
+//@   modifies wrr.backends, elems(wrr.backends), weightedBackend.currentWeight
 //@ loop (*WeightedRoundRobinStrategy).RemoveBackend #0
-//@   props C11 C12
+//@   props C11 C12 C05
 //@   invariant idx: -1 <= rangeindex && rangeindex < len(wrr.backends)
 //@   invariant notfound: forall k int :: {wrr.backends[k]} 0 <= k && k <= rangeindex ==> wrr.backends[k].backend != backend
 //@   decreases len(wrr.backends) - rangeindex
+//@ loop (*WeightedRoundRobinStrategy).RemoveBackend #1
+//@   props C11 C12 C05
+//@   invariant idx: -1 <= rangeindex && rangeindex < len(ranged)
+//@   invariant same_slice: ranged == wrr.backends && wrr.backends == old(wrr.backends) && (forall k int :: {wrr.backends[k]} 0 <= k && k < len(wrr.backends) ==> wrr.backends[k] == old(wrr.backends[k]) && wrr.backends[k] != nil)
+//@   invariant levelled: forall k int :: {wrr.backends[k]} 0 <= k && k <= rangeindex ==> wrr.backends[k].currentWeight == 0
+//@   invariant held: wlocked(wrr.mutex)
+//@   decreases len(ranged) - rangeindex
+//@   modifies weightedBackend.currentWeight
 
 //@ func (*LoadBalancer).RemoveBackend
 //@   props C11 C12
@@ -962,8 +976,16 @@ package loadbalancer
 //@   requires cfg != nil && 0 <= cfg.HealthChecks.Passive.UnhealthyTimeout && cfg.HealthChecks.Passive.UnhealthyTimeout < 8589934592
 //@   ensures result != nil
 //@   ensures an_ejection_has_a_positive_window: cfg.HealthChecks.Active.Enabled || cfg.HealthChecks.Passive.Enabled ==> result.passiveTimeout > 0
+// C19/C12: Stop waits on healthCheckWg while the checker goroutine Adds one probe per backend per tick. sync.WaitGroup
+// forbids an Add that may start from zero concurrently with Wait (race report; "WaitGroup is reused before previous
+// Wait has returned" panic): the checker must itself be a member of the group before it is started, so that the
+// counter is never zero while it can still Add.
 //@ func (*LoadBalancer).startHealthChecks
+//@   props C19 C12
 //@   inline
+//@   requires lb != nil && lb.healthChecks != nil
+//@   ensures the_checker_is_a_member_of_the_group_it_adds_to: lb.healthChecks.activeEnabled ==> lb.healthCheckWg.n == old(lb.healthCheckWg.n) + 1
+//@   modifies lb.healthCheckWg.n
 
 //@ pred cfgTimeoutsInRange(c *config.Config) := 0 <= c.Server.Timeouts.BackendDial && c.Server.Timeouts.BackendDial < 8589934592 && 0 <= c.Server.Timeouts.BackendRead
 //@      && c.Server.Timeouts.BackendRead < 8589934592 && 0 <= c.Server.Timeouts.BackendIdle && c.Server.Timeouts.BackendIdle < 8589934592
